@@ -280,8 +280,10 @@ class Fn(object):
     def reachable_blocks(self):
         key = 'rb'
         if key not in self._reach_cache:
-            seen = set([self.entry])
-            st = [self.entry]
+            # live code = reachable from the entry or from a catch handler (the CFG has no exception edges)
+            roots = [self.entry] + [b for b, blk in self.blocks.items() if blk.get('label') and 'catch' in blk['label']]
+            seen = set(roots)
+            st = list(roots)
             while st:
                 b = st.pop()
                 for s in self.succs(b):
